@@ -35,6 +35,10 @@ pub struct QSpec {
     /// ... plus this many whole seconds (only the thorough tier's idle scenario uses it)
     #[serde(default)]
     pub send_after_s: u16,
+    /// after its TCP reply the upstream writes the first k octets of a duplicate and closes the
+    /// connection (0: no)
+    #[serde(default)]
+    pub partial_dup_close: u8,
 }
 
 fn default_gap() -> u16 {
@@ -89,6 +93,7 @@ pub fn qspec_strategy(max_drops: u32, allow_all_lost: bool) -> impl Strategy<Val
             reply_gap_ms,
             send_after_ms,
             send_after_s: 0,
+            partial_dup_close: 0,
         })
 }
 
@@ -184,6 +189,7 @@ impl C07Conc {
                                 dup: q.dup,
                                 wrong_id_first: q.wrong_id,
                                 tc_udp: q.tc,
+                                tcp_partial_dup_then_close: if q.partial_dup_close > 0 { Some(q.partial_dup_close as usize) } else { None },
                                 tcp_split: match q.reply_split {
                                     0 => None,
                                     1 => Some((1, q.reply_gap_ms as u64)),
@@ -424,6 +430,7 @@ pub fn run_c07(ctx: &Ctx) {
         reply_gap_ms: 30,
         send_after_ms: 0,
         send_after_s: 0,
+        partial_dup_close: 0,
     };
     for listener in 0..4u8 {
         let case = ConcCase {
@@ -501,6 +508,32 @@ pub fn run_c07(ctx: &Ctx) {
             upstream_idle_close_ms: 0,
         };
         let out = exec_one(&prop, &case);
+        ctx.record(prop.sub(), &case, &out);
+        if let Some(f) = out.fail {
+            if ctx.is_known(&f.sig) {
+                ctx.known_hit(&f.sig);
+            } else {
+                ctx.violation(prop.sub(), &f, &case);
+                return;
+            }
+        }
+    }
+    // the upstream dies in mid-frame with nobody waiting: after answering the first query it
+    // writes the beginning of another frame (1, 2, 7 or 30 octets) and closes; the queries that
+    // follow go over a new connection and must not inherit what was left of the old one
+    for k in [1u8, 2, 7, 30] {
+        let case = ConcCase {
+            listener: 3,
+            queries: vec![
+                QSpec { partial_dup_close: k, ..plain(true, 0, 0) },
+                QSpec { send_after_ms: 900, ..plain(true, 0, 0) },
+                QSpec { send_after_ms: 1200, tc: true, ..plain(false, 0, 1) },
+                QSpec { send_after_ms: 1500, ..plain(true, 1, 2) },
+            ],
+            upstream_idle_close_ms: 0,
+        };
+        let mut out = exec_one(&prop, &case);
+        out.class("upstream-closes-in-mid-frame-with-nobody-waiting");
         ctx.record(prop.sub(), &case, &out);
         if let Some(f) = out.fail {
             if ctx.is_known(&f.sig) {
